@@ -18,7 +18,7 @@ RULE = ('Batches of generated molecules: 1-40 nodes; node keys contiguous / spar
         'repeated atom tuples; charge and mass present, absent or mixed per atom; pre/post section lines; '
         'meta define; molecules that went through node removal and merge_molecule; a few 10^4-atom molecules in the '
         'thorough tier. Non-trivial = (atom-id order differs from node order, or node keys are not 1..N) and >= 1 '
-        'interaction. distinct = distinct (keys, atomids, interactions) hashes.')
+        'interaction. distinct = distinct (keys, atomids, interactions) hashes. Also: interaction types whose list exists but is empty when written (read through the defaultdict, or emptied by removals); residue numbers 0 and negative; numeric parameters incl. zeros.')
 ASSUMPTIONS = ['tokens (names, types, parameters) contain no whitespace, ";" or newline',
                'line order inside a section, alignment, header and comment lines are not compared',
                'an atom with a mass but no charge cannot be expressed in the positional [ atoms ] format; '
